@@ -14,6 +14,9 @@ func Gen(store string) func(t *rapid.T) *Case {
 			c.Amb = rapid.IntRange(0, busmodel.AmbAll).Draw(t, "amb")
 		}
 		c.HonourCtx = rapid.Bool().Draw(t, "honourctx")
+		if store == "sqlite" && rapid.IntRange(0, 2).Draw(t, "inmemory") == 0 {
+			c.Store = "sqlitemem"
+		}
 		if store == "durable" {
 			c.Stream = false
 			c.Batch = 0
